@@ -95,7 +95,7 @@ class MidiTrack(object):
             self.set_deltatime(0)
         self.set_key(bar.key)
         for x in bar:
-            tick = int(round((1.0 / x[1]) * 288))
+            tick = int(round(288.0 / x[1]))
             if x[2] is None or len(x[2]) == 0:
                 self.delay += tick
             else:
